@@ -10,7 +10,9 @@ Open Scope Z_scope.
 Record case := {
   c_cfg : config;
   c_entry : Z;                 (* 0 getScanRange (packetScanCmdOpts); 1 ipScanCmdOpts.parseOptions;
-                                  2 the arp command itself (error class / frames on the wire) *)
+                                  2 the arp command itself, 3 the icmp command itself: error class, and for
+                                  accepted runs the interface the probes left through and the source they
+                                  carried, as seen on the virtual wire (vpn = raw IP read from a tun device) *)
   c_target : option target;    (* None: no destination subnet (targets from a file) *)
   c_ov : overrides;
   c_err : Z;                   (* 0 none, 1 errSrcInterface, 2 errSrcIP, 3 errSrcMAC, 9 any other error *)
@@ -56,13 +58,15 @@ Definition check_case (c : case) : list Z :=
         (if (if_index (o_iface o) =? c_ifindex c) && String.eqb (if_name (o_iface o)) (c_ifname c) then [] else [2])
         ++ (if opt_bytes_eqb (o_srcip o) (c_srcip c) then [] else [3])
         ++ (if opt_bytes_eqb (o_srcmac o) (c_srcmac c) then [] else [4])
-        ++ (if c_entry c =? 1 then
+        ++ (if (c_entry c =? 1) || (c_entry c =? 3) then
               (if Bool.eqb (o_vpn o) (c_vpn c) then [] else [5])
-              ++ (if o_vpn o then []
-                  else match gateway_of (c_cfg c) o with
-                       | Ok g => if opt_bytes_eqb (gw_mac g) (c_gwmac c) then [] else [6]
-                       | Err _ => [6]
-                       end)
+            else [])
+        ++ (if c_entry c =? 1 then
+              (if o_vpn o then []
+               else match gateway_of (c_cfg c) o with
+                    | Ok g => if opt_bytes_eqb (gw_mac g) (c_gwmac c) then [] else [6]
+                    | Err _ => [6]
+                    end)
             else [])
   end.
 
